@@ -363,6 +363,19 @@ def handle (j : Json) : E Json := do
     let src ← jStr j "src"
     let id ← jInt (← j.getObjVal? "id")
     pure (Json.mkObj [("model", Json.bool (M.admits mo src id)), ("spec", Json.bool (S.admits mo src id))])
+  | "xpath" =>
+    let s ← jStr j "s"
+    let r := match M.XPath.parse s with
+      | none => Json.null
+      | some p => Json.mkObj [("path", sJ p.path), ("segments", Json.arr (p.segments.map sJ).toArray)]
+    pure (Json.mkObj [("model", r)])
+  | "xpath_pair" =>
+    let a ← jStr j "a"
+    let b ← jStr j "b"
+    let r := match M.XPath.parse a, M.XPath.parse b with
+      | some p, some q => Json.mkObj [("eq", Json.bool (M.XPath.eq p q)), ("hash_ok", Json.bool (!(M.XPath.eq p q) || p.hashKey == q.hashKey))]
+      | _, _ => Json.null
+    pure (Json.mkObj [("model", r)])
   | "scenario" =>
     let t ← match jOpt j "ext" with
       | none => pure ({} : Tables)
